@@ -41,7 +41,9 @@ _FNS = ['things:f2', 'things:h1', 'things:Base', 'things:Other', 'things:LeafCls
 
 @st.composite
 def strategy_(draw, tier):
-  kinds = ['B', 'B', 'B', 'B', 'list', 'list', 'list', 'dict', 'dict', 'nt', 'tuple']
+  kinds = ['B', 'B', 'B', 'B', 'list', 'list', 'list', 'dict', 'dict', 'nt', 'tuple',
+             # further node kinds of the shared generator that this check's oracle handles (each once)
+             'TV', 'mdict', 'set', 'fset', 'ltuple', 'ntuple', 'Bpos', 'Bmut', 'Bmut1', 'Bmutnest', 'Bpo', 'Bpo3', 'Bdc', 'Bempty', 'AFP', 'odict', 'dcinst', 'Bclash']
   if draw(st.floats(0, 1)) < 0.06:
     kinds = kinds + ['Bpos', 'Bpos']
   old = draw(dags.dag(max_nodes=9, min_nodes=2, kinds=kinds, fns=_FNS, root_kinds=['B'],
